@@ -63,6 +63,17 @@ CLAIMS = {
              "Cache.file_hash memoisation across compilations in one process, transitive_fingerprint's dependency walk, "
              "Inline._inline_key call sites (the key omits cython_compiler_directives), cache lookup/store I/O.",
         ref="4 C48"),
+    "C07": dict(
+        text="Proof on the abstract CPython object model that __Pyx__PyNumber_PowerOf2 (the `2 ** n` fast path, taken from the C the "
+             "working-tree compiler generates) returns either the exact int 2**n (n an exact non-negative int) or CPython's own "
+             "PyNumber_Power/InPlacePower result, with no undefined shift on the way; proof that the loop-free part of IntPow "
+             "(e in 0..3, and e < 0 for signed types) is exact and UB-free for every instantiated C integer type whenever the result "
+             "fits. The square-and-multiply loop of IntPow is only covered by a BOUNDED native check (exhaustive for 8/16-bit types), "
+             "labelled bounded and not counted as proved.",
+        note="Trusted: dv C front end, the object model of dv/pyobj.py (PyLong 3.12 representation contract, C-API stubs, allocation "
+             "never fails, refcounts not modelled), z3. Unverified: PowNode result-type table (cpow), float/complex pow, the IntPow loop "
+             "(its final squaring is signed overflow for e.g. 3**19 as int: strict-C UB, masked by -fwrapv/-fno-strict-overflow builds).",
+        ref="4 C07"),
     "C12": dict(
         text="Item-level round trip of the string-table compressor, proved on the two real code fragments (located mechanically on every "
              "run): whatever (offset, length) the emission branch of lzss_compress encodes, the bytes it appends decode under the shared "
